@@ -53,6 +53,22 @@ pub fn dump_body<'tcx>(tcx: TyCtxt<'tcx>, did: DefId, body: &Body<'tcx>, crate_n
             "cleanup": Json::Bool(data.is_cleanup),
         });
     }
+    // Promoted constants (`&CONST_EXPR` temporaries such as the rhs of `kind == ErrorKind::NotFound`).
+    let mut promoted = Vec::new();
+    for (_idx, pbody) in tcx.promoted_mir(did).iter_enumerated() {
+        let pcx = Cx { tcx, body: pbody, env: ty::TypingEnv::post_analysis(tcx, did) };
+        let mut pblocks = Vec::new();
+        for (_bb, data) in pbody.basic_blocks.iter_enumerated() {
+            let mut stmts = Vec::new();
+            for st in &data.statements {
+                if let Some(j) = pcx.stmt(st) {
+                    stmts.push(j);
+                }
+            }
+            pblocks.push(obj! { "s": Json::Arr(stmts), "t": pcx.term(data.terminator()), "cleanup": Json::Bool(data.is_cleanup) });
+        }
+        promoted.push(Json::Arr(pblocks));
+    }
     let parent = if matches!(dk, DefKind::Closure) {
         Json::s(tcx.def_path_str(tcx.parent(did)))
     } else {
@@ -76,6 +92,7 @@ pub fn dump_body<'tcx>(tcx: TyCtxt<'tcx>, did: DefId, body: &Body<'tcx>, crate_n
         "locals": Json::Arr(locals),
         "names": Json::Arr(names),
         "blocks": Json::Arr(blocks),
+        "promoted": Json::Arr(promoted),
     }
 }
 
